@@ -504,3 +504,45 @@ Proof. intros H _. exact H. Qed.
 Lemma I_min_tick cfg s dt : I_min cfg s -> 0 <= dt ->
   I_min cfg (set_time (set_height s (height s + 1)) (time s + dt)).
 Proof. intros H _. exact H. Qed.
+
+(* ------------------------------------------------------------------ *)
+(* every reachable state: needs no assumption on the configuration or the operations *)
+
+Lemma BDM_expire_fold cfg l s : BDM cfg s -> BDM cfg (fold_left (expire_req cfg) l s).
+Proof. intros HB. apply fold_inv; [intros; now apply BDM_expire_req|assumption]. Qed.
+
+Theorem Reach_BDM cfg s : Reach cfg s -> BDM cfg s.
+Proof.
+  induction 1 as [h0 t0 f _ _ Hf|s o _ IH _]; [now apply BDM_init|now apply BDM_step].
+Qed.
+
+Corollary Reach_I_bank cfg s : Reach cfg s -> I_bank s.
+Proof. intros H. eapply BDM_bank, Reach_BDM, H. Qed.
+(* C03: the custody account holds exactly the sum of the binding deposits *)
+Corollary Reach_I_deposit cfg s : Reach cfg s -> I_deposit s.
+Proof. intros H. eapply BDM_deposit, Reach_BDM, H. Qed.
+(* C14: an available binding holds at least the minimum deposit for its price *)
+Corollary Reach_I_min cfg s : Reach cfg s -> I_min cfg s.
+Proof. intros H. eapply BDM_I_min, Reach_BDM, H. Qed.
+
+(* slash never panics on a state satisfying BDM whose available bindings have a price within
+   the 255-bit limit (I_index gives that); used by the no-panic results for h_respond and
+   to see that expire_req drops only returned errors *)
+Lemma slash_no_panic cfg s r :
+  0 <= p_slash cfg <= ONE -> BDM cfg s ->
+  (forall k b, get k (binds s) = Some b -> b_avail b = true ->
+     pr_price (pricing_of s k) * p_multiple cfg < INT_LIMIT) ->
+  slash cfg s r <> Panic.
+Proof.
+  intros Hsl HB Hlim.
+  destruct (get r (reqs s)) as [q|] eqn:Hq.
+  2:{ unfold slash. rewrite Hq. discriminate. }
+  destruct (get (rid_ctx r) (ctxs s)) as [rc|] eqn:Hrc.
+  2:{ unfold slash. rewrite Hq, Hrc. discriminate. }
+  destruct (get (c_svc rc, r_prov q) (binds s)) as [b|] eqn:Hb.
+  2:{ unfold slash. rewrite Hq, Hrc. cbn [of_opt bind]. rewrite Hb. discriminate. }
+  destruct (slash_ok cfg s r q rc b Hsl Hq Hrc Hb) as (s1 & ->); [| | |discriminate].
+  - eapply BDM_dep_nonneg; eauto.
+  - eapply BDM_dep_le_custody; eauto.
+  - intros Hav. eapply Hlim; eauto.
+Qed.
